@@ -35,27 +35,34 @@ META = {
                 'doit/runner.py::Runner.run_tasks', 'doit/runner.py::Runner.run_all',
                 'doit/runner.py::MRunner.get_next_job', 'doit/runner.py::MRunner._run_start_processes',
                 'doit/runner.py::MRunner.run_tasks', 'doit/runner.py::MRunner.execute_task_subprocess'],
-    'technique': ('Lean 4 invariant proofs (Inv1 dispatcher, Inv2 runner discipline + event order, Inv3 counting) over '
-                  'a small-step transition system of TaskDispatcher + Runner/MRunner/MThreadRunner, for all schedules; '
-                  'trace-acceptance correspondence against the real doit (serial, real MThreadRunner under a '
-                  'deterministic scheduler incl. exhaustive completion orders of all small DAGs, real multiprocessing '
-                  'with token-forced completion order); Lean monitor on every implementation trace, Python reference '
-                  'monitor as cross-check '),
+    'technique': ('Lean 4 invariant proofs over a small-step transition system of TaskDispatcher + Runner / MRunner / '
+                  'MThreadRunner (Inv1 dispatcher, Inv2 runner discipline, Inv3 counting / flight exclusivity, MInv '
+                  'closure membership, InvD/InvL/InvP "every generator is queued, every yielded node is selected", Inv5 '
+                  'free_proc / proc_count accounting), for all schedules; trace-acceptance correspondence against the '
+                  'real doit (serial, real MThreadRunner under a deterministic scheduler incl. exhaustive completion '
+                  'orders of all small DAGs, real multiprocessing with token-forced completion order); Lean monitors on '
+                  'every implementation trace, Python reference monitors as cross-check'),
     'design_ref': '§5 C02, §4 M1, §6.3, §6.4',
-    'level_text': ('Machine-checked (C02_at_most_once_serial, C02_at_most_once_parallel, C02_job_accounting): in every '
-                  'reachable state of the run model -- every graph, oracle, set-iteration order, worker interleaving at '
-                  "queue-operation granularity, every numProcess -- each task's actions start at most once and it gets "
-                  'at most one terminal report, and the parallel job accounting (free_proc / proc_count / jobs in '
-                  'flight) never hands a node out twice.  C02_inside_closure and C02_all_processed are checked by the '
-                  'monitor on every implementation trace (not yet theorems).  The model is tied to doit on every run by '
-                  'trace acceptance of the real doit on generated DAGs weighted towards shared dependencies, groups, '
-                  'shared setup-tasks and repeated selections; a crash or hang of the runner on an acyclic graph counts '
-                  'as a violation. '),
-    'level_note': ('Trusted: as C01.  all_processed / inside_closure: monitor-only (Lean monitor + Python cross-check), '
-                  "stated over the closure of the USER's selection.  Open finding dup-selection-truncates (a repeated "
-                  'task name makes doit drop the rest of the command line) is recognised by a specific signature and '
-                  'reported as KNOWN-FINDING; for the M1 correspondence the model is given the selection the runner '
-                  'really received (reporter.initialize). '),
+    'level_text': ('Machine-checked, all three parts, serial and parallel: (1) C02_at_most_once_serial / _parallel, '
+                  'C02_selected_once_serial, C02_job_accounting -- in every reachable state (every graph, oracle, '
+                  "set-iteration order, worker interleaving, numProcess) each task's actions start at most once, it gets "
+                  'at most one terminal report, and a chosen task is in exactly one place (held by get_next_job, in the '
+                  'job queue, started; at most one worker executes it); (2) C02_inside_closure_serial / _parallel, '
+                  'C02_no_outside_work -- every event, node, job and busy worker belongs to the closure of the selection '
+                  '(task_dep, calc_dep, calc results, setup-tasks only of tasks that are neither ignored nor '
+                  'up-to-date; C02_closure_excludes_lazy_setup shows the closure is not everything); (3) '
+                  'C02_all_processed_serial / _parallel -- when the run ends because the dispatcher has nothing left '
+                  '(no failure without --continue, no internal or cyclic error) every member of the closure has exactly '
+                  'one terminal report; for the parallel runners this rests on the proved free_proc / proc_count '
+                  'accounting (C02_queue_accounting, C02_end_quiescent).  No acyclicity hypothesis is needed.  The model '
+                  'is tied to doit on every run by trace acceptance of the real doit on generated DAGs weighted towards '
+                  'shared dependencies, groups, shared setup-tasks and repeated selections; a crash or hang of the runner '
+                  'on an acyclic graph counts as a violation.'),
+    'level_note': ('Trusted: as C01.  The closure of the theorem C02_inside_closure is a static over-approximation '
+                  '(what any closure member could deliver counts); the monitor evaluates the sharper run-dependent '
+                  "closure of the USER's selection on every implementation trace.  The finding dup-selection-truncates "
+                  '(a repeated task name made doit drop the rest of the command line) was found by this check and is '
+                  'fixed in /repo (dcfe778); seeded/revert-F-C02-dupsel re-creates it.'),
     'rule': 'random DAGs of 3-9 tasks (hidden topological order, shuffled definition order; edge kinds task_dep, setup, '
             'calc_dep (+delivered deps), file_dep->target, getargs, result_dep; groups; shared deps), oracle per task '
             '(run/up-to-date/error, ignored, ok/failed/error, teardown), flags, selection all/names/targets, runner '
@@ -81,9 +88,9 @@ KNOBS = {'p_dup_sel': 0.3, 'p_shared': 0.8, 'p_group': 0.45,
 def plan(ctx, scale=1.0):
     """(pool batches, main-process batches) for this run"""
     quick = ctx.tier == 'quick'
-    n_serial = int((400 if quick else 5000) * ctx.boost * scale)
-    n_thread = int((300 if quick else 5000) * ctx.boost * scale)
-    n_proc = int((10 if quick else 120) * min(ctx.boost, 2) * scale)
+    n_serial = int((700 if quick else 20000) * ctx.boost * scale)
+    n_thread = int((600 if quick else 20000) * ctx.boost * scale)
+    n_proc = int((12 if quick else 240) * min(ctx.boost, 2) * scale)
     rng = ctx.rng
     gen = []
     for _ in range(n_serial):
